@@ -72,7 +72,7 @@ def run_tlc_once(module: str, cfg: str | None = None, env: dict | None = None, w
     return res
 
 
-_VERDICT = re.compile(r'^"(\{.*\})"\s*$')
+_VERDICT = re.compile(r'^"([\{\[].*[\}\]])"\s*$')
 
 
 def parse_json_lines(out: str) -> list[dict]:
